@@ -641,5 +641,99 @@ func TestC08(t *testing.T) {
 		}
 	}
 
+	// ---- readers that can seek, handed over at a position that is not the start -----------
+	// (a results file resumed after a header, after records already consumed by the caller):
+	// detection starts at the reader's position and yields exactly what follows.
+	for si, rs := range stdinStreams {
+		for _, c := range cresCodecs {
+			data := cresEncode(c.name, rs)
+			var pres [][]byte
+			pres = append(pres, []byte("# header\n"), []byte{0}, bytes.Repeat([]byte("x"), 5000))
+			if c.name != encodingGob { // a gob stream cannot be resumed in the middle (type definitions come first)
+				for j := 1; j < len(rs); j++ {
+					pres = append(pres, cresEncode(c.name, rs[:j]))
+				}
+			}
+			for pi, pre := range pres {
+				want := rs
+				if pi >= 3 {
+					want = rs[pi-2:]
+				}
+				whole := append(append([]byte(nil), pre...), data...)
+				if pi >= 3 {
+					whole = data
+				}
+				for _, kind := range []string{"bytes.Reader", "os.File"} {
+					var rd io.ReadSeeker
+					switch kind {
+					case "bytes.Reader":
+						rd = bytes.NewReader(whole)
+					case "os.File":
+						fn := filepath.Join(dir, fmt.Sprintf("seek-%d-%s-%d", si, c.name, pi))
+						os.WriteFile(fn, whole, 0o644)
+						f, err := os.Open(fn)
+						if err != nil {
+							t.Fatal(err)
+						}
+						defer os.Remove(fn)
+						defer f.Close()
+						rd = f
+					}
+					if _, err := rd.Seek(int64(len(pre)), io.SeekStart); err != nil {
+						t.Fatal(err)
+					}
+					R.Eval(1)
+					R.Part("seekable_reader_at_offset", c.name, 1)
+					R.Distinct(fmt.Sprint("seek", si, c.name, pi, kind))
+					if k, why := c08Detect(R, rd, want); k != "" {
+						R.Violation("detect:seekable-reader-at-offset:"+c.name+":"+k, map[string]any{"reader": kind, "offset": len(pre), "stream": cresBriefs(rs), "expected_from_offset": cresBriefs(want), "what": why})
+					}
+				}
+			}
+		}
+	}
+
+	// ---- input in none of the formats, arriving through a pipe on standard input -----------
+	// (a pipe has no size): the command must fail, not produce an empty output
+	pipeJunk := []string{"hello world\n", "{\"attack\":1}\n", "\x00\x01\x02", "GET http://x/\n", string(bytes.Repeat([]byte("z"), 5000)), "1,2,3\n", "{", "\n\n\n"}
+	for ji, jk := range pipeJunk {
+		for _, to := range []string{"gob", "json", "csv"} {
+			pr, pw, err := os.Pipe()
+			if err != nil {
+				t.Fatal(err)
+			}
+			go func() { pw.Write([]byte(jk)); pw.Close() }()
+			saved := os.Stdin
+			os.Stdin = pr
+			out := filepath.Join(dir, fmt.Sprintf("junk-%d-%s.out", ji, to))
+			var cerr error
+			func() {
+				defer func() {
+					if x := recover(); x != nil {
+						cerr = fmt.Errorf("panic: %v", x)
+					}
+				}()
+				cerr = encode([]string{"stdin"}, to, out)
+			}()
+			os.Stdin = saved
+			pr.Close()
+			b, _ := os.ReadFile(out)
+			os.Remove(out)
+			R.Eval(1)
+			R.Part("encode_stdin_junk", to, 1)
+			R.Distinct(fmt.Sprint("stdin-junk", ji, to))
+			// the library agrees that this is in none of the formats (premise of the case)
+			if vegeta.DecoderFor(strings.NewReader(jk)) != nil {
+				continue
+			}
+			if cerr == nil {
+				R.Violation("encode-stdin:junk-accepted", map[string]any{"input": ev.Trunc(fmt.Sprintf("%q", jk), 80), "to": to, "output_bytes": len(b)})
+			} else if strings.HasPrefix(cerr.Error(), "panic") {
+				R.Violation("encode-stdin:junk-panics", map[string]any{"input": ev.Trunc(fmt.Sprintf("%q", jk), 80), "to": to, "error": cerr.Error()})
+			}
+		}
+	}
+
 	R.Finish(t)
 }
+
